@@ -22,8 +22,9 @@ import os, re, subprocess, hashlib
 
 # ----------------------------------------------------------------------------- configuration
 PREDS = {"sexp_fixnump": "PFixnum", "sexp_string_cursorp": "PCursor", "sexp_charp": "PChar",
-         "sexp_pairp": "PPair", "sexp_vectorp": "PVector", "sexp_bytesp": "PBytes", "sexp_stringp": "PString"}
-UNBOX = {"sexp_unbox_fixnum": "IFix", "sexp_unbox_string_cursor": "ICur"}
+         "sexp_pairp": "PPair", "sexp_vectorp": "PVector", "sexp_bytesp": "PBytes", "sexp_stringp": "PString",
+         "sexp_iportp": "PIPort", "sexp_oportp": "POPort"}
+UNBOX = {"sexp_unbox_fixnum": "IFix", "sexp_unbox_string_cursor": "ICur", "sexp_unbox_character": "IChr"}
 LENS = {"sexp_vector_length": ("LVec", "PVector"), "sexp_bytes_length": ("LBytes", "PBytes"),
         "sexp_string_size": ("LStr", "PString")}
 # accessor macro -> (kind, position of the object operand, position of the index operand or None)
@@ -38,7 +39,21 @@ ACCESS = {
     "sexp_car": ("AField PPair", 0, None, None), "sexp_cdr": ("AField PPair", 0, None, None),
     "sexp_immutablep": ("APtr", 0, None, None),
     "sexp_make_vector": ("AAlloc", None, 1, "IFix"),
+    # port fields and the buffer / stream primitives that take the port itself: the operand must be a port of the kind the
+    # opcode tested ("APort": AField PIPort / POPort according to the guard seen for that operand)
+    "sexp_port_openp": ("APort", 0, None, None), "sexp_port_stream": ("APort", 0, None, None), "sexp_port_line": ("APort", 0, None, None),
+    "sexp_read_char": ("APort", 1, None, None), "sexp_push_char": ("APort", 2, None, None),
+    "sexp_read_utf8_char": ("APort", 1, None, None), "sexp_push_utf8_char": ("APort", 2, None, None),
+    "sexp_write_char": ("APort", 2, None, None), "sexp_write_utf8_char": ("APort", 2, None, None),
+    "sexp_poll_input": ("APort", 1, None, None), "sexp_poll_output": ("APort", 1, None, None),
 }
+# unboxing / boxing of characters: puts the char <-> integer opcodes in scope (no heap access, but an unboxed operand used
+# as a value must have been type-tested)
+SCOPE_EXTRA = {"sexp_unbox_character", "sexp_make_character"}
+# opcode bodies with nested branches: translated PATH BY PATH (every path through the body is one table entry)
+MULTIPATH = {"SEXP_OP_WRITE_CHAR", "SEXP_OP_READ_CHAR", "SEXP_OP_PEEK_CHAR"}
+SCALARS = {"i", "j", "k", "errno", "fuel", "tmp1", "tmp2"}          # C locals assigned by value in the multi-path bodies
+VALUE_IDS = {"EOF", "errno", "EAGAIN", "fuel", "ip", "tmp1", "tmp2", "k"}
 # raw data accessors: never translatable; their presence puts a case in scope
 RAW = {"sexp_vector_data", "sexp_bytes_data", "sexp_string_data", "sexp_string_bytes", "sexp_string_offset",
        "sexp_caar", "sexp_cadr", "sexp_cdar", "sexp_cddr"}
@@ -47,7 +62,9 @@ RAW = {"sexp_vector_data", "sexp_bytes_data", "sexp_string_data", "sexp_string_b
 PURE = set(PREDS) | set(UNBOX) | {
     "sexp_make_fixnum", "sexp_make_string_cursor", "sexp_make_boolean", "sexp_make_character",
     "sexp_unbox_character", "sexp_cons", "sexp_list1", "sexp_list2", "sexp_nullp", "sexp_symbolp",
-    "sexp_exceptionp", "sexp_not"}
+    "sexp_exceptionp", "sexp_not", "sexp_toupper", "sexp_tolower",
+    # take their operands by value (FILE*, procedure, port handed on to the scheduler)
+    "ferror", "clearerr", "sexp_applicablep", "sexp_global", "sexp_apply2"}
 IGNORED_STMTS = {"sexp_check_exception", "_ALIGN_IP"}
 # cases that use the accessors but are outside the translated subset: name -> why
 SKIP = {
@@ -70,9 +87,6 @@ SKIP = {
     "SEXP_OP_LE": "numeric tower dispatch (flonum/bignum/ratio fields under their own type tests; C04/C09)",
     "SEXP_OP_EQN": "numeric tower dispatch (flonum/bignum/ratio fields under their own type tests; C04/C09)",
     "SEXP_OP_WRITE_STRING": "port buffer arithmetic (I/O, outside part 1)",
-    "SEXP_OP_WRITE_CHAR": "port buffer arithmetic (I/O, outside part 1)",
-    "SEXP_OP_READ_CHAR": "port buffer arithmetic (I/O, outside part 1)",
-    "SEXP_OP_PEEK_CHAR": "port buffer arithmetic (I/O, outside part 1)",
     "SEXP_OP_FORCE": "promise fields (typed by sexp_promisep)",
     "SEXP_OP_FCALLN": "foreign call with argument vector",
     "SEXP_OP_DONE": "end of run",
@@ -388,6 +402,8 @@ class CaseTr:
         self.msgs = []           # message per emitted guard
         self.env = {}            # local integer variable -> iexp string
         self.moved = False       # an IAssign/ITop was emitted: later guards unsupported
+        self.port_kind = {}      # operand -> PIPort / POPort, from the guards seen
+        self.multi = False
 
     def unknown(self, why):
         self.items.append("IAccess AUnknown (* %s *)" % why.replace("*)", "* )"))
@@ -420,6 +436,8 @@ class CaseTr:
         if e[0] == "bin" and e[1] == "||" and not positive:
             return self.cont_of(e[2], False) + self.cont_of(e[3], False)
         if e[0] == "call" and e[1] in PREDS and len(e[2]) == 1 and argno(e[2][0]) and positive:
+            if PREDS[e[1]] in ("PIPort", "POPort"):
+                self.port_kind[argno(e[2][0])] = PREDS[e[1]]
             return ["GIs %s %s" % (PREDS[e[1]], argno(e[2][0]))]
         if e[0] == "call" and e[1] == "sexp_immutablep" and len(e[2]) == 1 and argno(e[2][0]) and not positive:
             return ["GMutable %s" % argno(e[2][0])]
@@ -438,13 +456,18 @@ class CaseTr:
         if k in ("num", "str", "chr"):
             return
         if k == "id":
-            if e[1] in ("top", "ctx", "self", "i", "j") or argno(e) or e[1].startswith("SEXP_"):
+            if e[1] in ("top", "ctx", "self", "i", "j") or argno(e) or e[1].startswith("SEXP_") or (self.multi and e[1] in VALUE_IDS):
                 return
             raise Unsupported("identifier %s" % e[1])
         if k == "call":
             f, args = e[1], e[2]
             if f in ACCESS:
                 kind, op, ip, ik = ACCESS[f]
+                if kind == "APort":
+                    a = argno(args[op])
+                    if not a or a not in self.port_kind:
+                        raise Unsupported("%s on an operand that no port guard names" % f)
+                    kind = "AField " + self.port_kind[a]
                 parts = [kind]
                 if op is not None:
                     a = argno(args[op])
@@ -461,6 +484,10 @@ class CaseTr:
                         self.accesses(x)
                 self.items.append("IAccess (%s)" % " ".join(parts))
                 return
+            if f in UNBOX and len(args) == 1 and argno(args[0]):
+                # an unboxed operand used as a value: the operand must have been tested
+                self.items.append("IAccess (AUnbox (%s %s))" % (UNBOX[f], argno(args[0])))
+                return
             if f in PURE:
                 for x in args:
                     self.accesses(x)
@@ -475,7 +502,13 @@ class CaseTr:
             self.accesses(e[3])
             return
         if k == "cond":
-            raise Unsupported("conditional expression")
+            if not self.multi:
+                raise Unsupported("conditional expression")
+            for x in e[1:]:
+                self.accesses(x)
+            return
+        if k == "post" and self.multi:
+            return self.accesses(e[2])
         raise Unsupported("expression form %s" % k)
 
     # -- statements
@@ -557,6 +590,10 @@ class CaseTr:
                 return
             if lhs == ("id", "ip"):
                 return
+            if self.multi and lhs[0] == "id" and lhs[1] in SCALARS and op == "=":
+                self.env.pop(lhs[1], None)
+                self.accesses(rhs)
+                return
             if lhs[0] == "id" and lhs[1] in ("i", "j") and op == "=":
                 try:
                     self.env[lhs[1]] = self.iexp(rhs)
@@ -578,12 +615,24 @@ class CaseTr:
             raise Unsupported("assignment target")
         if e[0] == "call":
             return self.accesses(e)
+        if self.multi and e[0] == "post" and e[2] == ("id", "ip"):
+            return
+        if self.multi and e[0] == "post" and e[2][0] == "call":
+            return self.accesses(e[2])
         raise Unsupported("expression statement")
 
     def top(self):
         self.items.append("ITop")
         self.moved = True
         self.env = {}
+
+    def acc_safe(self, e):
+        n = len(self.items)
+        try:
+            self.accesses(e)
+        except Unsupported as u:
+            del self.items[n:]
+            self.unknown(str(u))
 
     def stmt_safe(self, s):
         n = len(self.items), len(self.msgs)
@@ -595,12 +644,61 @@ class CaseTr:
             self.unknown(str(u))
 
 
+def expand_paths(name, stmts, limit=48):
+    """every path through a body with nested branches, each translated as a straight-line item list.  A branch whose
+    condition is not a translatable guard forks (both sides are followed, the condition's own accesses first); break /
+    goto end a path; `if (c) raise` with an untranslatable c just drops the raising side (no fact is recorded)."""
+    import copy
+    first = CaseTr(name)
+    first.multi = True
+    work, done = [(first, list(stmts))], []
+    while work:
+        tr, rest = work.pop()
+        if len(work) + len(done) > limit:
+            raise Unsupported("more than %d paths" % limit)
+        if not rest:
+            tr.unknown("a path falls through into the next case")
+            done.append(tr)
+            continue
+        s, rest = rest[0], rest[1:]
+        k = s[0]
+        if k == "block":
+            work.append((tr, list(s[1]) + rest))
+        elif k in ("break", "goto") or tr.is_raise(s) is not None:      # an unconditional sexp_raise leaves the body as well
+            done.append(tr)
+        elif k == "if":
+            msg = tr.is_raise(s[2])
+            n = len(tr.items), len(tr.msgs)
+            if msg is not None:
+                try:
+                    if tr.moved:
+                        raise Unsupported("guard after an operand update")
+                    gs = tr.cont_of(s[1], False)
+                    for g in gs:
+                        tr.items.append("IGuard (%s)" % g)
+                        tr.msgs.append(msg)
+                except Unsupported:
+                    del tr.items[n[0]:]
+                    del tr.msgs[n[1]:]
+                    tr.acc_safe(s[1])         # the accesses of the condition itself
+                work.append((tr, ([s[3]] if s[3] is not None else []) + rest))
+            else:
+                tr.acc_safe(s[1])
+                t2 = copy.deepcopy(tr)
+                work.append((tr, [s[2]] + rest))
+                work.append((t2, ([s[3]] if s[3] is not None else []) + rest))
+        else:
+            tr.stmt_safe(s)
+            work.append((tr, rest))
+    return done
+
+
 def translate(d):
     """returns dict(coq=text, names=[...], msgs={name: [...]}, skipped={...}, untouched=[...], sha=...)"""
     txt = preprocess(d)
     body = switch_body(txt)
     cases = split_cases(body)
-    scope_names = set(ACCESS) | RAW
+    scope_names = set(ACCESS) | RAW | SCOPE_EXTRA
     entries, names, msgs, skipped, untouched = [], [], {}, {}, []
     seen = set()
     for labels, toks in cases:
@@ -625,6 +723,19 @@ def translate(d):
         except Unsupported as u:
             stmts = None
             tr.unknown("parse: %s" % u)
+        if stmts is not None and name in MULTIPATH:
+            try:
+                paths = expand_paths(name, stmts)
+            except Unsupported as u:
+                paths = [tr]
+                tr.unknown("paths: %s" % u)
+            paths.sort(key=lambda t: (-len(t.msgs), len(t.items)))
+            for n_, t_ in enumerate(paths):
+                l = name if n_ == 0 else "%s#%d" % (name, n_)
+                names.append(l)
+                msgs[l] = t_.msgs
+                entries.append((l, t_.items))
+            continue
         if stmts is not None:
             if not stmts or stmts[-1][0] not in ("break", "goto"):
                 tr.unknown("falls through into the next case")
@@ -645,7 +756,7 @@ def translate(d):
     lines.append("].")
     lines.append("")
     for n, (l, items) in enumerate(entries):
-        lines.append("Definition code_%s : Z := %d." % (l.replace("SEXP_OP_", ""), n))
+        lines.append("Definition code_%s : Z := %d." % (l.replace("SEXP_OP_", "").replace("#", "_path"), n))
     lines.append("")
     return dict(coq="\n".join(lines), names=names, msgs=msgs, skipped=skipped, untouched=sorted(untouched), sha=sha,
                 items={l: it for l, it in entries})
